@@ -1,6 +1,9 @@
 package main
 
 import (
+	"encoding/json"
+	"os"
+	"path/filepath"
 	"fmt"
 	"go/types"
 	"sort"
@@ -1117,6 +1120,17 @@ func enumerateRaceSites(L *Loaded, db *ContractDB) ([]FrameSite, map[*ssa.Functi
 							add(fn, in, "store-elem", "[]"+typeStr(elemTypeOf(ia.X.Type())), o, c.why[ia.X], o == OwnOwned)
 						}
 					}
+					// (C) field stores in code run by the goroutines: the object written must be owned by the function
+					// (allocated by it, or handed over by an 'owns' contract) - a shared object such as the package
+					// configuration must stay read-only once the goroutines run
+					if inGoroutine {
+						if root := fieldRoot(i.Addr); root != nil {
+							if _, isAlloc := root.(*ssa.Alloc); !isAlloc && sharedReadOnlyType(root.Type()) {
+								o := c.own(root)
+								add(fn, in, "store-field-of-shared-value", typeStr(root.Type()), o, c.why[root], o == OwnOwned)
+							}
+						}
+					}
 				case *ssa.MapUpdate:
 					if g := globalRootVal(i.Map); g != nil && !isInit {
 						add(fn, in, "global-map-update", g.Pkg.Pkg.Path()+"."+g.Name(), OwnNilaway, "update of a package-level map outside init", false)
@@ -1138,6 +1152,37 @@ func enumerateRaceSites(L *Loaded, db *ContractDB) ([]FrameSite, map[*ssa.Functi
 		}
 	}
 	return sites, reach, entries
+}
+
+// sharedReadOnlyType: the pointee is one of the per-package values shared read-only by the goroutines
+// (/verif/spec/c16_shared_types.json).
+var sharedTypes map[string]bool
+
+func sharedReadOnlyType(t types.Type) bool {
+	pt, ok := types.Unalias(t).Underlying().(*types.Pointer)
+	if !ok {
+		return false
+	}
+	n, ok := types.Unalias(pt.Elem()).(*types.Named)
+	if !ok || n.Obj().Pkg() == nil {
+		return false
+	}
+	return sharedTypes[n.Obj().Pkg().Path()+"."+n.Obj().Name()]
+}
+
+// fieldRoot: for a store through a chain of field addresses, the pointer the chain starts from (nil otherwise).
+func fieldRoot(addr ssa.Value) ssa.Value {
+	fa, ok := addr.(*ssa.FieldAddr)
+	if !ok {
+		return nil
+	}
+	for {
+		inner, ok := fa.X.(*ssa.FieldAddr)
+		if !ok {
+			return fa.X
+		}
+		fa = inner
+	}
 }
 
 // goroutineEntries: functions started as goroutines (go statements and sync.WaitGroup.Go).
@@ -1246,6 +1291,18 @@ func globalRootVal(v ssa.Value) *ssa.Global {
 
 // raceObligations is the C16 check.
 func raceObligations(L *Loaded, db *ContractDB, rep *Report) {
+	sharedTypes = map[string]bool{}
+	if b, err := os.ReadFile(filepath.Join(rep.verifDir, "spec", "c16_shared_types.json")); err == nil {
+		var cfg struct{ Types []string }
+		if json.Unmarshal(b, &cfg) == nil {
+			for _, t := range cfg.Types {
+				sharedTypes[t] = true
+			}
+		}
+	}
+	if len(sharedTypes) == 0 {
+		rep.Errs = append(rep.Errs, "C16: spec/c16_shared_types.json missing or empty")
+	}
 	sites, reach, entries := enumerateRaceSites(L, db)
 	var obs []StructOb
 	seen := map[string]int{}
